@@ -189,7 +189,7 @@ def play_scripts(d, seed, max_scripts):
     behaviours of models with one weakened rule) are played against real replicas by `hsverif attack`."""
     tr, st = os.path.join(d, "attack.ndjson"), os.path.join(d, "attack_status.ndjson")
     vlib.run_harness(["attack", "-scripts", SCRIPTS, "-out", tr, "-status", st, "-seed", seed, "-max", max_scripts], timeout=3000)
-    rows, status = vlib.read_ndjson(tr), vlib.read_ndjson(st)
+    status = vlib.read_ndjson(st)
     summ = {}
     for s in status:
         e = summ.setdefault("%s/%s" % (s["rs"], s["weak"]), {})
@@ -200,9 +200,52 @@ def play_scripts(d, seed, max_scripts):
     def expected(s):
         return "completed" if s["kind"] == "follow" or s["weak"] in ("commit2", "nodirect", "gaplow", "gaphigh") else "refused"
     drift = [s for s in status if s["status"] != expected(s)]
-    return rows, {"scripts_played": len(status), "script_outcomes": summ,
+    return tr, {"scripts_played": len(status), "script_outcomes": summ,
                   "script_conformance_drift": [{k: s[k] for k in ("job", "idx", "status", "at", "notes")} for s in drift[:10]],
                   "script_conformance_drift_count": len(drift)}
+
+
+# the judge works on chunks of whole runs (runs are independent: every run starts from an "init" line), so that the memory it needs
+# does not grow with the size of the tier
+MAX_ROWS = int(os.environ.get("VERIF_MAX_ROWS", "150000"))
+
+
+def iter_runs(path, partial=False):
+    """Yields the runs of a trace file one by one (lists of rows, each starting with its "init" line)."""
+    cur = []
+    with open(path) as fh:
+        for ln in fh:
+            ln = ln.strip()
+            if not ln:
+                continue
+            try:
+                x = json.loads(ln)
+            except ValueError:
+                if partial:
+                    break          # the driver died in the middle of this line
+                raise
+            if x["op"] == "init" and cur:
+                yield cur
+                cur = []
+            cur.append(x)
+    if partial:
+        while cur and cur[-1]["op"] not in ("end", "step"):
+            cur.pop()
+    if cur:
+        yield cur
+
+
+def iter_chunks(files, max_rows=None):
+    max_rows = max_rows or MAX_ROWS
+    rows = []
+    for path, partial in files:
+        for rr in iter_runs(path, partial):
+            rows.extend(rr)
+            if len(rows) >= max_rows:
+                yield rows
+                rows = []
+    if rows:
+        yield rows
 
 
 def run_property(prop, tier, seed, driver_args, rule, extra_cov=None, assumptions=None, scripts=0, more=(), models=False):
@@ -211,101 +254,114 @@ def run_property(prop, tier, seed, driver_args, rule, extra_cov=None, assumption
     v = vlib.Verdict(prop)
     script_cov = {}
     mc = []
+    st = {"states": 0, "cmd": "", "runs": 0, "nsteps": 0, "commits": 0, "votes": 0, "byzacts": 0, "incs": 0, "panics": 0, "by_rs": {},
+          "samples": None, "extra": {}, "chunks": 0}
+    conf = {"conformance_model": "spec/HotStuff.tla (replica model) via spec/Trace_R.tla", "conformance_steps_checked": 0,
+            "conformance_runs_checked": 0, "conformance_drift_runs": 0, "conformance_drift": []}
     with vlib.scratch(prop) as d:
         if models:
             mc = model_checks(d, tier, prop)
-        tr = os.path.join(d, "trace.ndjson")
+        files = []
+        tr = os.path.join(d, "trace_base.ndjson")
         died = None
         try:
             vlib.run_harness(["proto", "-out", tr, "-seed", seed] + driver_args, timeout=3000, partial_ok=True)
-            rows = vlib.read_ndjson(tr)
+            files.append((tr, False))
         except vlib.HarnessDied as e:
             # the code under test took the driver down or hung it: what happened before is on disk and is judged; only if that
             # shows nothing wrong is this an infrastructure error
             died = str(e)
-            rows = vlib.read_ndjson_partial(tr)
-            while rows and rows[-1]["op"] != "end" and rows[-1]["op"] != "step":
-                rows.pop()
-            if not rows:
+            if not os.path.exists(tr) or not next(iter_runs(tr, True), None):
                 raise vlib.InfraError(died)
+            files.append((tr, True))
         for i, extra in enumerate(more):
             # further batches of runs (e.g. one scenario of the library only), same seed
             tr2 = os.path.join(d, "trace_more%d.ndjson" % i)
             vlib.run_harness(["proto", "-out", tr2, "-seed", seed] + list(extra), timeout=3000)
-            rows = rows + vlib.read_ndjson(tr2)
+            files.append((tr2, False))
         if scripts:
-            arows, script_cov = play_scripts(d, seed, scripts)
-            rows = rows + arows
-        allrows = rows
+            apath, script_cov = play_scripts(d, seed, scripts)
+            files.append((apath, False))
         cfg = "Trace_P_%s.cfg" % prop
-        states = 0
-        cmd = ""
-        for _ in range(12):
-            rt, l = judge(d, rows, cfg)
-            states += rt.distinct
-            cmd = rt.cmd
-            if rt.status == "ok":
-                break
-            if rt.status != "violation" or not l:
-                raise vlib.InfraError("trace check: %r\n%s" % (rt, rt.out[-2000:]))
-            line = rows[l - 1]
-            k = run_id(rows, l)
-            key = KEYS[prop](line, rows, l)
-            v.violation(key, "%s (run: n=%d %s byz=%s leaders=%s; step %d): %s" % (
-                WHAT[prop], rows[k]["n"], rows[k]["rs"], rows[k]["byz"], rows[k]["lmode"], l - k, json.dumps(brief(line))[:900]),
-                {"run": rows[k:l], "harness": ("hsverif attack -scripts spec/generated/scripts.ndjson -seed %d (script %s)" % (seed, json.dumps(rows[k]["script"])))
-                 if "script" in rows[k] else "hsverif proto -seed %d %s" % (seed, " ".join(str(a) for a in driver_args))})
-            # drop the runs with this key and keep judging the rest
-            keep = []
-            for rr in split_runs(rows):
-                rkey = KEYS[prop](None, rr, 1)
-                if rkey != key:
-                    keep += rr
-            rows = keep
-            if not rows:
-                break
-        conf_cov = conformance(d, allrows)
-        conf_cov["binding_selftest"] = binding_selftest(d, allrows, prop, cfg) if not v.violations else "skipped (violations reported)"
-        # panics inside replicas discredit nothing here but are reported (they belong to C10)
-        panics = sum(1 for x in allrows if x["op"] == "step" and x["panic"])
+        for allrows in iter_chunks(files):
+            rows = allrows
+            for _ in range(12):
+                rt, l = judge(d, rows, cfg)
+                st["states"] += rt.distinct
+                st["cmd"] = rt.cmd
+                if rt.status == "ok":
+                    break
+                if rt.status != "violation" or not l:
+                    raise vlib.InfraError("trace check: %r\n%s" % (rt, rt.out[-2000:]))
+                line = rows[l - 1]
+                k = run_id(rows, l)
+                key = KEYS[prop](line, rows, l)
+                v.violation(key, "%s (run: n=%d %s byz=%s leaders=%s; step %d): %s" % (
+                    WHAT[prop], rows[k]["n"], rows[k]["rs"], rows[k]["byz"], rows[k]["lmode"], l - k, json.dumps(brief(line))[:900]),
+                    {"run": rows[k:l], "harness": ("hsverif attack -scripts spec/generated/scripts.ndjson -seed %d (script %s)" % (seed, json.dumps(rows[k]["script"])))
+                     if "script" in rows[k] else "hsverif proto -seed %d %s" % (seed, " ".join(str(a) for a in driver_args))})
+                # drop the runs with this key and keep judging the rest
+                keep = []
+                for rr in split_runs(rows):
+                    rkey = KEYS[prop](None, rr, 1)
+                    if rkey != key:
+                        keep += rr
+                rows = keep
+                if not rows:
+                    break
+            cc = conformance(d, allrows)
+            for k2 in ("conformance_steps_checked", "conformance_runs_checked", "conformance_drift_runs"):
+                conf[k2] += cc[k2]
+            conf["conformance_drift"] = (conf["conformance_drift"] + cc["conformance_drift"])[:3]
+            if st["chunks"] == 0:
+                conf["binding_selftest"] = binding_selftest(d, allrows, prop, cfg) if not v.violations else "skipped (violations reported)"
+            st["chunks"] += 1
+            # coverage counters of this chunk
+            runs = split_runs(allrows)
+            st["runs"] += len(runs)
+            for x in allrows:
+                if x["op"] == "step":
+                    st["nsteps"] += 1
+                    st["commits"] += len(x["commits"])
+                    st["votes"] += sum(1 for sg in x["signed"] if sg[0] == "vote")
+                    st["incs"] += x["post"]["view"] - x["pre"]["view"]
+                    st["panics"] += 1 if x["panic"] else 0       # (panics inside replicas discredit nothing here; they belong to C10)
+                elif x["op"] == "byz":
+                    st["byzacts"] += 1
+            for rr in runs:
+                k3 = "%s/n=%d" % (rr[0]["rs"], rr[0]["n"])
+                e = st["by_rs"].setdefault(k3, {"runs": 0, "commits": 0, "with_byz": 0})
+                e["runs"] += 1
+                e["commits"] += sum(len(x["commits"]) for x in rr if x["op"] == "step")
+                e["with_byz"] += 1 if rr[0]["byz"] else 0
+            if st["samples"] is None:
+                sample = next((x for x in allrows if x["op"] == "step" and x["commits"]), allrows[min(1, len(allrows) - 1)])
+                st["samples"] = [allrows[0], brief(sample)]
+            if extra_cov:
+                for k4, val in extra_cov(allrows).items():
+                    st["extra"][k4] = st["extra"].get(k4, 0) + val
     if died and not v.violations:
         raise vlib.InfraError("driver died and the trace up to there shows no violation: " + died[:1500])
     rc = v.finish()
-    rows = allrows
-    runs = split_runs(rows)
-    nsteps = sum(1 for x in rows if x["op"] == "step")
-    commits = sum(len(x["commits"]) for x in rows if x["op"] == "step")
-    votes = sum(1 for x in rows if x["op"] == "step" for s in x["signed"] if s[0] == "vote")
-    byzacts = sum(1 for x in rows if x["op"] == "byz")
-    incs = sum(x["post"]["view"] - x["pre"]["view"] for x in rows if x["op"] == "step")
-    by_rs = {}
-    for rr in runs:
-        k = "%s/n=%d" % (rr[0]["rs"], rr[0]["n"])
-        e = by_rs.setdefault(k, {"runs": 0, "commits": 0, "with_byz": 0})
-        e["runs"] += 1
-        e["commits"] += sum(len(x["commits"]) for x in rr if x["op"] == "step")
-        e["with_byz"] += 1 if rr[0]["byz"] else 0
-    sample = next((x for x in rows if x["op"] == "step" and x["commits"]), rows[1])
     cov = {
-        "states": states, "transitions": states, "traces_validated_against_impl": len(runs),
-        "samples": [rows[0], brief(sample)],
-        "evaluations": nsteps, "distinct_nontrivial": len(runs),
-        "rule": rule, "runs": len(runs), "steps": nsteps, "commit_events": commits, "votes_signed": votes, "byzantine_actions": byzacts,
-        "view_increments": incs, "by_ruleset": by_rs, "replica_panics": panics, "checker_cmd": cmd,
+        "states": st["states"], "transitions": st["states"], "traces_validated_against_impl": st["runs"],
+        "samples": st["samples"] or [],
+        "evaluations": st["nsteps"], "distinct_nontrivial": st["runs"],
+        "rule": rule, "runs": st["runs"], "steps": st["nsteps"], "commit_events": st["commits"], "votes_signed": st["votes"], "byzantine_actions": st["byzacts"],
+        "view_increments": st["incs"], "by_ruleset": st["by_rs"], "replica_panics": st["panics"], "checker_cmd": st["cmd"], "judged_in_chunks": st["chunks"],
     }
     cov.update(script_cov)
-    cov.update(conf_cov)
+    cov.update(conf)
     if mc:
         cov["model_checks"] = mc
-        cov["states"] = states + sum(x["distinct"] for x in mc)
-        cov["transitions"] = states + sum(x["generated"] for x in mc)
-    if conf_cov["conformance_drift_runs"]:
+        cov["states"] = st["states"] + sum(x["distinct"] for x in mc)
+        cov["transitions"] = st["states"] + sum(x["generated"] for x in mc)
+    if conf["conformance_drift_runs"]:
         print("[%s] WARNING: %d run(s) deviate from the replica model spec/HotStuff.tla (conformance drift, not a verdict); first: %s" % (
-            prop, conf_cov["conformance_drift_runs"], json.dumps(conf_cov["conformance_drift"][0])[:700]))
+            prop, conf["conformance_drift_runs"], json.dumps(conf["conformance_drift"][0])[:700]))
     if script_cov.get("script_conformance_drift_count"):
         print("[%s] WARNING: %d TLC-generated scripts were not followed as the model predicts (conformance drift, not a verdict)" % (
             prop, script_cov["script_conformance_drift_count"]))
-    if extra_cov:
-        cov.update(extra_cov(rows))
+    cov.update(st["extra"])
     vlib.write_evidence(prop, tier, seed, "model_checking", cov, time.time() - t0, violations=len(v.violations), assumptions=assumptions or [])
     return rc
